@@ -77,8 +77,12 @@ def wl_history(ctx, rng, case, force_width=None):
     ctx.observe("hash_kinds", hname)
     true = Counter({k: 0 for k in keys})
     removes = reloads = 0
-    for step in range(rng.randint(4, 45)):
-        bl.noise_reads(ctx, rng, s, keys)
+    # in a quarter of the histories nothing reads the sketch between two mutations: the oracles run after every 2nd..5th call only
+    quiet = rng.choice([0, 0, 0, 2, 3, 5])
+    nsteps = rng.randint(4, 45)
+    for step in range(nsteps):
+        if not quiet:
+            bl.noise_reads(ctx, rng, s, keys)
         r = rng.random()
         total = sum(true.values())
         live = [k for k in keys if true[k] > 0]
@@ -163,6 +167,9 @@ def wl_history(ctx, rng, case, force_width=None):
             reloads += 1
             ctx.count("op.reload")
         where = f"after step {step} ({case.ops[-1][0]})"
+        if quiet and step % quiet and step != nsteps - 1:
+            ctx.count("steps_without_any_read")
+            continue
         if k is not None:
             now = s.check(k)
             ctx.check(ret == now, f"value returned by {case.ops[-1][0]} differs from the immediately following check() {where}", key=k, returned=ret, check=now)
